@@ -279,6 +279,10 @@ impl World {
                     conn.local_address_changed();
                     json!({"k":"Ok"})
                 }
+                "path_changed" => {
+                    conn.path_changed(now);
+                    json!({"k":"Ok"})
+                }
                 "counts" => {
                     let ss = conn.streams().send_streams();
                     let rb = conn.streams().remote_open_streams(Dir::Bi);
